@@ -305,7 +305,7 @@ func (m *mon) await(done <-chan struct{}, what string) bool {
 			m.viol("leak/acquirers-blocked-below-capacity",
 				fmt.Sprintf("%s: %d acquirers are blocked although only %d of %d units are out (%d acquisitions, %d releases), every live goroutine of the history is inside an acquire call and no holder is inside; nothing moved in %d consecutive samples (%s)",
 					m.prim, cur.pend, cur.acq-cur.rel, m.n, cur.acq, cur.rel, stuckSamples, what),
-				map[string]any{"blocked_acquirers": cur.pend, "acquired": cur.acq, "released": cur.rel, "goroutines": stacks()})
+				map[string]any{"blocked_acquirers": cur.pend, "acquired": cur.acq, "released": cur.rel, "goroutines": stacksBrief()})
 			return false
 		}
 	}
@@ -313,8 +313,17 @@ func (m *mon) await(done <-chan struct{}, what string) bool {
 	return false
 }
 
+// stacksBrief is the dump cut to a size fit for a witness.
+func stacksBrief() string {
+	s := stacks()
+	if len(s) > 48<<10 {
+		s = s[:48<<10] + "\n...(cut)"
+	}
+	return s
+}
+
 func stacks() string {
-	buf := make([]byte, 1<<16)
+	buf := make([]byte, 1<<20)
 	k := runtime.Stack(buf, true)
 	return string(buf[:k])
 }
@@ -348,7 +357,7 @@ func (m *mon) goHolder(wg *sync.WaitGroup, fn func()) {
 		defer func() {
 			if p := recover(); p != nil {
 				if _, ok := p.(verifPanic); !ok {
-					m.viol("harness/unexpected-panic", fmt.Sprint(p), map[string]any{"stack": stacks()})
+					m.viol("harness/unexpected-panic", fmt.Sprint(p), map[string]any{"stack": stacksBrief()})
 				}
 			}
 		}()
